@@ -100,6 +100,11 @@ impl Context {
 //@@ header-from specs/ctx/new_with_input.spec
 //@@ header-from specs/ctx/new_with_input.det.spec
 //@@ endfn
+//@@ fn ctxo.to_list = src/processor.rs :: impl Context :: fn to_list
+//@@ ret r
+//@@ assume
+//@@ header-from specs/ctx/to_list.spec
+//@@ endfn
 //@@ fn ctxo.input_context = src/processor.rs :: impl Context :: fn input_context
 //@@ ret r
 //@@ assume
